@@ -614,6 +614,18 @@ static J exec_call(Ctx& c, const J& op) {
 }
 
 static InodeP g_fs_backup;
+// the configuration file of the run: knobs.conf at the start, changed by {"act":"restart","conf":{key: value | null}} between C_Finalize and C_Initialize
+static std::map<std::string, std::string> g_conf; static std::string g_conf_raw, g_conf_tokendir;
+static void write_conf() {
+    std::string conf = "directories.tokendir = " + g_conf_tokendir + "\n";
+    for (auto& kv : g_conf) conf += kv.first + " = " + kv.second + "\n";
+    if (!g_conf.count("objectstore.backend")) conf += "objectstore.backend = file\n";
+    if (!g_conf.count("log.level")) conf += "log.level = ERROR\n";
+    if (!g_conf.count("slots.mechanisms")) conf += "slots.mechanisms = ALL\n";
+    conf += "slots.removable = false\n";
+    if (!g_conf_raw.empty()) conf = g_conf_raw;
+    g_fs.put_file("/sim/softhsm2.conf", conf, 0644);
+}
 static J exec_act(Ctx& c, const J& op) {
     const std::string a = op["act"].str(); J out = J::obj(); CK_RV rv = 0;
     auto F = c.P->fl;
@@ -621,6 +633,7 @@ static J exec_act(Ctx& c, const J& op) {
     if (a == "stop") { CALL(F->C_Finalize(nullptr)); out.set("rv", (long)rv); if (rv == CKR_OK) c.P->inited = false; return out; }
     if (a == "restart") {
         CALL(F->C_Finalize(nullptr)); out.set("fin_rv", (long)rv); c.P->inited = false;
+        if (op.has("conf")) { for (auto& kv : op["conf"].o) { if (kv.second.t == J::NUL) g_conf.erase(kv.first); else g_conf[kv.first] = kv.second.str(); } write_conf(); }
         rv = do_initialize(c, op["locking"].str(c.P->locking)); out.set("rv", (long)rv);
         if (rv == CKR_OK) out.set("scan", scan_slots(c)); return out;
     }
@@ -725,7 +738,7 @@ static void run_ops(Ctx& c, const J& ops, int base_index, const char* tag, int c
         J ret = J::obj(); ret.set("e", "ret"); ret.set("op", base_index + (int)k); ret.set("f", op.has("f") ? op["f"] : op["act"]);
         if (cs >= 0) ret.set("cs", cs);
         for (auto& kv : r.o) ret.set(kv.first, kv.second);
-        ret.set("edges", (long)(c.t->edges - e0));
+        ret.set("edges", (long)(c.t->edges - e0)); ret.set("ny", (long)c.t->yord);
         if (!c.t->fs_nth.empty()) { J fsn = J::obj(); for (auto& kv : c.t->fs_nth) fsn.set(kv.first, (long)kv.second); ret.set("fsn", fsn); }   // file operations of this op by kind (fault placement, DESIGN 2.5)
         hist_event(ret);
         if (is_crash_victim) { crash_pending = true; g_fs.snaps.swap(g_victim_snaps); }
@@ -844,17 +857,12 @@ void exec_plan(const J& plan, int outfd) {
     rng_reseed((uint64_t)plan["seed"].num() * 0x9E3779B97F4A7C15ull + 12345);
     // config + token dir
     { extern std::string g_real_root; std::string td = kn["tokendir"].str("/sim/tokens"); g_real_root = td.compare(0, 5, "/sim/") == 0 ? std::string() : td; }
-    std::string conf = "directories.tokendir = " + kn["tokendir"].str("/sim/tokens") + "\n";   // a path outside /sim/ = real backing (pass-through)
-    const J& cf = kn["conf"];
-    bool have_backend = false, have_log = false, have_mech = false;
-    for (auto& kv : cf.o) { if (kv.first == "__raw") continue; conf += kv.first + " = " + kv.second.str() + "\n"; if (kv.first == "objectstore.backend") have_backend = true; if (kv.first == "log.level") have_log = true; if (kv.first == "slots.mechanisms") have_mech = true; }
-    if (!have_backend) conf += "objectstore.backend = file\n";
-    if (!have_log) conf += "log.level = ERROR\n";
-    if (!have_mech) conf += "slots.mechanisms = ALL\n";
-    conf += "slots.removable = false\n";
-    if (cf.has("__raw")) conf = fromhex(cf["__raw"].str());
+    g_conf.clear(); g_conf_raw.clear(); g_conf_tokendir = kn["tokendir"].str("/sim/tokens");   // a path outside /sim/ = real backing (pass-through)
+    { const J& cf = kn["conf"];
+      for (auto& kv : cf.o) { if (kv.first == "__raw") continue; g_conf[kv.first] = kv.second.str(); }
+      if (cf.has("__raw")) g_conf_raw = fromhex(cf["__raw"].str()); }
     g_fs.mkdirs("/sim/tokens", 0700);
-    g_fs.put_file("/sim/softhsm2.conf", conf, 0644);
+    write_conf();
     // initial disk
     const J& disk = plan["disk"];
     if (disk.t == J::OBJ && disk.has("files")) {
@@ -875,6 +883,7 @@ void exec_plan(const J& plan, int outfd) {
     const J& tasks = plan["tasks"];
     for (size_t k = 0; k < tasks.size(); k++) {
         Task* t = new Task; t->tid = (int)k; t->pid = tasks.at(k)["pid"].num(1); t->ops = tasks.at(k)["ops"]; sem_init(&t->sem, 0, 0); t->st = T_RUNNABLE;
+        if (k == 0) { R.parks.clear(); const J& pk = kn["parks"]; for (size_t j = 0; j < pk.size(); j++) R.parks.push_back({(int)pk.at(j).at(0).num(), (int)pk.at(j).at(1).num(), (int)pk.at(j).at(2).num(), (int)pk.at(j).at(3).num()}); }
         const J& pre = kn["preempt"];
         for (size_t j = 0; j < pre.size(); j++) if (pre.at(j).at(0).num() == (long)k) t->preempts.push_back({(int)pre.at(j).at(1).num(), (uint64_t)pre.at(j).at(2).num()});
         std::sort(t->preempts.begin(), t->preempts.end());
